@@ -1,6 +1,7 @@
 package rules
 
 import (
+	"go/token"
 	"fmt"
 	"os"
 	"strings"
@@ -496,7 +497,11 @@ func runC13(c *Ctx) {
 		// which of the two is returned when: the refresh's own result exactly when it refreshed
 		okWhen := false
 		for _, iff := range ir.Ifs(rf) {
-			ex, isEx := iff.Cond.(*ssa.Extract)
+			cond, yesSucc := iff.Cond, 0
+			if not, isNot := cond.(*ssa.UnOp); isNot && not.Op == token.NOT {
+				cond, yesSucc = not.X, 1
+			}
+			ex, isEx := cond.(*ssa.Extract)
 			if !isEx || ex.Index != 0 {
 				continue
 			}
@@ -504,17 +509,26 @@ func runC13(c *Ctx) {
 			if !isCall || !c.U.CalleeIs(call, "cdi", "(*Cache).refreshIfRequired") {
 				continue
 			}
-			yes := ir.Edge{From: iff.Block(), Succ: 0}
+			yes := ir.Edge{From: iff.Block(), Succ: yesSucc}
+			no := ir.Edge{From: iff.Block(), Succ: 1 - yesSucc}
 			okWhen = true
+			// viaOnly: instruction `at` (or, for a value carried by a phi, the edge pred->blk)
+			// lies only behind edge e
+			viaOnly := func(e ir.Edge, pred, blk *ssa.BasicBlock, at ssa.Instruction) bool {
+				if pred == iff.Block() {
+					return iff.Block().Succs[e.Succ] == blk
+				}
+				return ir.OnlyViaEdge(rf, at, e)
+			}
 			for _, ret := range ir.NormalReturns(rf) {
 				res := ir.ReturnResult(ret, 0)
-				check := func(v ssa.Value, at ssa.Instruction) {
+				check := func(v ssa.Value, pred *ssa.BasicBlock, at ssa.Instruction) {
 					if e1, ok := v.(*ssa.Extract); ok && e1.Tuple == ssa.Value(call) && e1.Index == 1 {
-						if !ir.OnlyViaEdge(rf, at, yes) {
+						if !viaOnly(yes, pred, ret.Block(), at) {
 							okWhen = false
 						}
 					} else if jc, ok := v.(*ssa.Call); ok && jc.Call.StaticCallee() != nil && jc.Call.StaticCallee().String() == "errors.Join" {
-						if ir.CanReach(rf, ir.PathQuery{FromEdge: &yes, To: at}) && ir.OnlyViaEdge(rf, at, yes) {
+						if !viaOnly(no, pred, ret.Block(), at) {
 							okWhen = false
 						}
 					}
@@ -522,10 +536,10 @@ func runC13(c *Ctx) {
 				if phi, isPhi := res.(*ssa.Phi); isPhi && phi.Block() == ret.Block() {
 					for k, e := range phi.Edges {
 						pb := ret.Block().Preds[k]
-						check(e, pb.Instrs[len(pb.Instrs)-1])
+						check(e, pb, pb.Instrs[len(pb.Instrs)-1])
 					}
 				} else {
-					check(res, ret)
+					check(res, nil, ret)
 				}
 			}
 		}
